@@ -240,7 +240,7 @@ func (nb *nativeBuilder) binary(prog *sym.Program, pkg string) (string, error) {
 	bin := filepath.Join(dir, "pkg.test")
 	cmd := exec.Command("go", "test", "-c", "-vet=off", "-overlay", ovFile, "-o", bin, pkg)
 	cmd.Dir = prog.Module.Dir
-	cmd.Env = sym.GoEnv()
+	cmd.Env = sym.ModEnv(prog.Module.Dir)
 	out, err := cmd.CombinedOutput()
 	if err != nil {
 		err = fmt.Errorf("native build of %s failed: %v\n%s", pkg, err, tail(string(out), 3000))
